@@ -110,6 +110,7 @@ def round_ms(x):
 
 class WritersHarness(Harness):
   name = "c06_writers"
+  quick_only_for = ("C18",)   # the deep tier runs under the harness's own property; the C18 roll-up reuses the quick partitions
   properties = ("C06", "C07", "C18", "C14")
   functions = ("srt.writer:from_model", "srt.writer:SrtContext.append_element", "srt.paragraph:SrtParagraph.to_string",
                "vtt.writer:from_model", "vtt.writer:VttContext.process_p", "vtt.cue:VttCue.to_string",
